@@ -35,8 +35,19 @@ using proto::Line;
 #else
     #define C07_RELN rel3
 #endif
-#ifndef C07_HAS_OPTREF_CONV
-    #define C07_HAS_OPTREF_CONV 0
+// optional<T&> from optional<U>: converting constructor (direct and copy-initialization) / converting assignment, from a
+// const source (_C) and from a non-const lvalue or an rvalue source (_M)
+#ifndef C07_HAS_OPTREF_CTOR_C
+    #define C07_HAS_OPTREF_CTOR_C 0
+#endif
+#ifndef C07_HAS_OPTREF_CTOR_M
+    #define C07_HAS_OPTREF_CTOR_M 0
+#endif
+#ifndef C07_HAS_OPTREF_ASSIGN_C
+    #define C07_HAS_OPTREF_ASSIGN_C 0
+#endif
+#ifndef C07_HAS_OPTREF_ASSIGN_M
+    #define C07_HAS_OPTREF_ASSIGN_M 0
 #endif
 #ifndef C07_HAS_EXPECTED_EQ
     #define C07_HAS_EXPECTED_EQ 0
@@ -937,6 +948,49 @@ struct ORefCfg final : Cfg {
         }
         return both(x, y);
     }
+    using CR = etl::optional<int const&>;
+    static std::string showc(CR const& c, int const* want)
+    {
+        if (!c.has_value()) { return "-"; }
+        if (c.operator->() != want) { return "engaged p=0"; } // bound to something else (not read)
+        return show(*c) + " p=1";
+    }
+    // How: 0 direct-initialization, 1 copy-initialization, 2 assignment to a target that is empty / bound to *pre
+    template <int How, typename From>
+    static std::string conv_any(From&& from, int const* pre, int const* want)
+    {
+        if constexpr (How == 0) {
+            CR c(std::forward<From>(from));
+            return showc(c, want);
+        } else if constexpr (How == 1) {
+            CR c = std::forward<From>(from);
+            return showc(c, want);
+        } else {
+            CR c = pre != nullptr ? CR(*pre) : CR();
+            CR& r = (c = std::forward<From>(from));
+            return &r == &c ? showc(c, want) : std::string("bad-return");
+        }
+    }
+    template <int How, typename From>
+    static std::string conv_c(From&& from, int const* pre, int const* want) // const sources
+    {
+        if constexpr (How == 2 ? C07_HAS_OPTREF_ASSIGN_C != 0 : C07_HAS_OPTREF_CTOR_C != 0) {
+            return conv_any<How>(std::forward<From>(from), pre, want);
+        } else {
+            (void)from, (void)pre, (void)want;
+            return "nc";
+        }
+    }
+    template <int How, typename From>
+    static std::string conv_m(From&& from, int const* pre, int const* want) // non-const lvalue and rvalue sources
+    {
+        if constexpr (How == 2 ? C07_HAS_OPTREF_ASSIGN_M != 0 : C07_HAS_OPTREF_CTOR_M != 0) {
+            return conv_any<How>(std::forward<From>(from), pre, want);
+        } else {
+            (void)from, (void)pre, (void)want;
+            return "nc";
+        }
+    }
     static std::string relp(int* a, int* b)
     {
         // reference semantics of P2988: compare like optional<int> on the referents
@@ -1026,15 +1080,41 @@ struct ORefCfg final : Cfg {
             std::optional<int> y = s[k] ? std::optional<int>(*s[k]) : std::nullopt;
             return fin(C07_RELN(*e[k], etl::nullopt) + C07_RELN(etl::nullopt, *e[k]), rel6(y, std::nullopt) + rel6(std::nullopt, y));
         }
-        if (op == "conv") { // optional<int const&> from optional<int&>  (P2988 converting constructor)
-            auto k = slot("s");
-#if C07_HAS_OPTREF_CONV
-            etl::optional<int const&> c(*e[k]);
-            std::string ri = c.has_value() ? show(*c) : std::string("-");
-#else
-            std::string ri = "nc";
-#endif
-            return fin(ri, s[k] ? show(*s[k]) : std::string("-"));
+        if (op == "conv") {
+            // optional<int const&> made from another optional: P2988 converting constructor (how=ctor: direct-,
+            // how=implicit: copy-initialization) and converting assignment (how=assign, target bound to cell `pre`
+            // or empty before).  Source: slot s as a non-const lvalue (src=ref), const lvalue (cref) or rvalue (rref)
+            // optional<int&>, or an optional<int> (val: non-const lvalue, cval: const lvalue) that holds a copy of the
+            // referent of slot s / is empty when the slot is.  Reference = the paper's wording on pointers:
+            // "if rhs.has_value() is true, val refers to *rhs; otherwise *this is empty".
+            // Answer: `-` (empty) or `<referent> p=1` (p: the result points at the object the source holds).
+            auto k   = slot("s");
+            auto how = l.str("how");
+            auto src = l.str("src");
+            if (how != "ctor" && how != "implicit" && how != "assign") { return BAD; }
+            if (l.has("pre") && (how != "assign" || slot("pre") >= ncell)) { return BAD; }
+            int const* pre = l.has("pre") ? &ce[slot("pre")] : nullptr;
+            etl::optional<int> ev = e[k]->has_value() ? etl::optional<int>(**e[k]) : etl::optional<int>();
+            std::optional<int> sv = s[k] != nullptr ? std::optional<int>(*s[k]) : std::nullopt;
+            bool const val = src == "val" || src == "cval";
+            if (!val && src != "ref" && src != "cref" && src != "rref") { return BAD; }
+            // the object the source holds, on each side
+            int const* want = val ? (ev.has_value() ? &*ev : nullptr) : (e[k]->has_value() ? e[k]->operator->() : nullptr);
+            int const* ref  = val ? (sv.has_value() ? &*sv : nullptr) : s[k]; // reference result: rhs.has_value() ? &*rhs : null
+            std::string ri  = "nc";
+            int const h     = how == "ctor" ? 0 : how == "implicit" ? 1 : 2;
+            if (src == "cref") {
+                ri = h == 0 ? conv_c<0>(std::as_const(*e[k]), pre, want) : h == 1 ? conv_c<1>(std::as_const(*e[k]), pre, want) : conv_c<2>(std::as_const(*e[k]), pre, want);
+            } else if (src == "cval") {
+                ri = h == 0 ? conv_c<0>(std::as_const(ev), pre, want) : h == 1 ? conv_c<1>(std::as_const(ev), pre, want) : conv_c<2>(std::as_const(ev), pre, want);
+            } else if (src == "ref") {
+                ri = h == 0 ? conv_m<0>(*e[k], pre, want) : h == 1 ? conv_m<1>(*e[k], pre, want) : conv_m<2>(*e[k], pre, want);
+            } else if (src == "rref") {
+                ri = h == 0 ? conv_m<0>(std::move(*e[k]), pre, want) : h == 1 ? conv_m<1>(std::move(*e[k]), pre, want) : conv_m<2>(std::move(*e[k]), pre, want);
+            } else {
+                ri = h == 0 ? conv_m<0>(ev, pre, want) : h == 1 ? conv_m<1>(ev, pre, want) : conv_m<2>(ev, pre, want);
+            }
+            return fin(ri, ref != nullptr ? show(*ref) + " p=1" : std::string("-"));
         }
         return BAD;
     }
